@@ -22,7 +22,7 @@ theorem len_writeBacks : ∀ (args : Args), (writeBacks args).length = 3 * refCo
     cases e <;> simp [writeBacks, refCount, Expr.isRef, len_writeBacks rest] <;> omega
 
 mutual
-theorem len_expr (lay : List Nat) : ∀ (e : Proc.Expr) (off : Nat), (compileExpr lay off e).length = sizeExpr e
+theorem len_expr (lay : Layout) : ∀ (e : Proc.Expr) (off : Nat), (compileExpr lay off e).length = sizeExpr e
   | .lit _ _, _ => by simp [compileExpr, sizeExpr]
   | .var _ _ _, _ => by simp [compileExpr, sizeExpr]
   | .un op e _, off => by cases op <;> simp [compileExpr, sizeExpr, len_expr lay e]
@@ -35,35 +35,35 @@ theorem len_expr (lay : List Nat) : ∀ (e : Proc.Expr) (off : Nat), (compileExp
     simp only [compileExpr, sizeExpr, List.length_append, List.length_singleton, List.length_cons, List.length_nil,
       len_pushArgs lay args, len_enqueues, len_writeBacks]
     (try omega)
-theorem len_pushArgs (lay : List Nat) : ∀ (args : Args) (off : Nat), (pushArgs lay off args).length = sizePush args
+theorem len_pushArgs (lay : Layout) : ∀ (args : Args) (off : Nat), (pushArgs lay off args).length = sizePush args
   | .nil, _ => by simp [pushArgs, sizePush]
   | .cons e _ pt rest, off => by
     simp only [pushArgs, sizePush, List.length_append, List.length_singleton, len_expr lay e, len_pushArgs lay rest]
     by_cases h : e.ty = pt <;> simp [h] <;> omega
 end
 
-theorem len_exprTo (lay : List Nat) (off : Nat) (e : Proc.Expr) (t : Ty) :
+theorem len_exprTo (lay : Layout) (off : Nat) (e : Proc.Expr) (t : Ty) :
     (compileExprTo lay off e t).length = sizeExprTo e t := by
   simp only [compileExprTo, sizeExprTo, List.length_append, len_expr]
   by_cases h : e.ty = t <;> simp [h]
 
-theorem len_subCall (lay : List Nat) (off f : Nat) (args : Args) (p : Pos) :
+theorem len_subCall (lay : Layout) (off f : Nat) (args : Args) (p : Pos) :
     (compileSubCall lay off f args p).length = sizeSubCall args := by
   simp only [compileSubCall, sizeSubCall, List.length_append, List.length_singleton, List.length_cons, List.length_nil,
     len_pushArgs, len_enqueues, len_writeBacks]
   (try omega)
 
-theorem len_caseExpr (lay : List Nat) (p : Pos) (next off : Nat) (c : CaseExpr) :
+theorem len_caseExpr (lay : Layout) (p : Pos) (next off : Nat) (c : CaseExpr) :
     (compileCaseExpr lay p next off c).length = sizeCaseExpr c := by
   cases c <;> simp [compileCaseExpr, sizeCaseExpr, len_expr] <;> try omega
 
-theorem len_items (lay : List Nat) (p : Pos) : ∀ (items : List PrintItem) (off : Nat),
+theorem len_items (lay : Layout) (p : Pos) : ∀ (items : List PrintItem) (off : Nat),
     (compileItems lay p off items).length = sizeItems items
   | [], _ => rfl
   | it :: rest, off => by
     cases it <;> simp [compileItems, sizeItems, len_items lay p rest, len_expr] <;> try omega
 
-theorem len_conds (lay : List Nat) (p : Pos) (sfx : String) (bi nextCase stmts : Nat) :
+theorem len_conds (lay : Layout) (p : Pos) (sfx : String) (bi nextCase stmts : Nat) :
     ∀ (conds : List CaseExpr) (off ei : Nat),
       (compileConds lay p sfx bi nextCase stmts off ei conds).length = sizeConds conds
   | [], _, _ => rfl
@@ -79,17 +79,18 @@ theorem flatMap_const_len {α β : Type} (f : α → List β) (k : Nat) (h : ∀
   | nil => simp
   | cons a rest ih => simp [List.flatMap_cons, ih, h, Nat.mul_succ] <;> (try omega)
 
-theorem len_forBody (sfx : String) (x : Nat) (t : Ty) (bodyCode : Code) (up : Bool) (p : Pos) (off outOff : Nat) :
+theorem len_forBody (sfx : String) (x : Var) (t : Ty) (bodyCode : Code) (up : Bool) (p : Pos) (off outOff : Nat) :
     (forBody sfx x t bodyCode up p off outOff).length = bodyCode.length + 18 := by
   simp [forBody, loadVar, storeVar] <;> try omega
 
 mutual
-theorem len_stmt (lay : List Nat) : ∀ (s : SStmt) (sfx : String) (fd sd off : Nat),
+theorem len_stmt (lay : Layout) : ∀ (s : SStmt) (sfx : String) (fd sd off : Nat),
     (compileStmt lay sfx fd sd off s).length = sizeStmt fd sd s
   | .skip, _, _, _, _ => by simp [compileStmt, sizeStmt]
   | .seq a b, sfx, fd, sd, off => by simp [compileStmt, sizeStmt, len_stmt lay a, len_stmt lay b]
   | .comment, _, _, _, _ => by simp [compileStmt, sizeStmt]
   | .dim _ _ _, _, _, _, _ => by simp [compileStmt, sizeStmt]
+  | .sdim _ _ _, _, _, _, _ => by simp [compileStmt, sizeStmt]
   | .assign x t e p, _, _, _, _ => by simp [compileStmt, sizeStmt, storeVar, len_exprTo]
   | .print items p, _, _, _, _ => by simp [compileStmt, sizeStmt, len_items] <;> try omega
   | .data items p, _, _, _, _ => by
@@ -128,14 +129,14 @@ theorem len_stmt (lay : List Nat) : ∀ (s : SStmt) (sfx : String) (fd sd off : 
   | .end_ _, _, _, _, _ => by simp [compileStmt, sizeStmt]
   | .callSub f args p, _, _, _, off => by simp only [compileStmt, sizeStmt, len_subCall]
   | .exitProc p, _, fd, sd, _ => by simp [compileStmt, sizeStmt, sizeExit]; omega
-theorem len_elifs (lay : List Nat) : ∀ (e : ElseIfs) (sfx : String) (fd sd : Nat) (p : Pos) (endOff off i : Nat),
+theorem len_elifs (lay : Layout) : ∀ (e : ElseIfs) (sfx : String) (fd sd : Nat) (p : Pos) (endOff off i : Nat),
     (compileElifs lay sfx fd sd p endOff off i e).length = sizeElifs fd sd e
   | .nil, _, _, _, _, _, _, _ => by simp [compileElifs, sizeElifs]
   | .cons c body rest, sfx, fd, sd, p, endOff, off, i => by
     simp only [compileElifs, sizeElifs, List.length_append, List.length_singleton, len_stmt lay body,
       len_elifs lay rest, len_expr]
     (try omega)
-theorem len_cases (lay : List Nat) : ∀ (cs : SCases) (sfx : String) (fd sd : Nat) (p : Pos) (endOff off i : Nat),
+theorem len_cases (lay : Layout) : ∀ (cs : SCases) (sfx : String) (fd sd : Nat) (p : Pos) (endOff off i : Nat),
     (compileCases lay sfx fd sd p endOff off i cs).length = sizeCases fd sd cs
   | .nil, _, _, _, _, _, _, _ => by simp [compileCases, sizeCases]
   | .cons conds body rest, sfx, fd, sd, p, endOff, off, i => by
@@ -146,7 +147,7 @@ theorem len_cases (lay : List Nat) : ∀ (cs : SCases) (sfx : String) (fd sd : N
     · simp [h] <;> (try omega)
 end
 
-theorem len_proc (lay : List Nat) (off : Nat) (d : ProcDecl SStmt) : (compileProc lay off d).length = sizeProc d := by
+theorem len_proc (lay : Layout) (off : Nat) (d : ProcDecl SStmt) : (compileProc lay off d).length = sizeProc d := by
   unfold compileProc sizeProc
   cases d.result <;> simp [len_stmt] <;> omega
 
